@@ -435,10 +435,37 @@ var _ rpc.Resources
 //@   assumes r != nil
 //@   safety[C15]
 
+// wsHeaderAuth waits on a channel for the answer assembled by its two closures (the rendezvous
+// itself is trusted); the closures are under contract: the auth request is made under the latest
+// protocol version and the connection's version is restored when the answer arrives; a meta
+// status outside 300-599 is dropped before the meta object is handed on.
 //@ func (*Service).wsHeaderAuth
 //@   trusted
 //@   requires s != nil && c != nil
 //@   ensures err != nil ==> reserr.predErrOK(err)
+//@   ensures meta != nil && meta.Status != nil ==> 300 <= *meta.Status && *meta.Status < 600
+//@ closure (*Service).wsHeaderAuth#1
+//@   requires s != nil && predConnOK(c)
+//@   assert[C10,C14] c.AuthResourceNoResult#1: c.protocolVer == versionLatest && arg0 == s.cfg.wsHeaderAuthRID && arg1 == s.cfg.wsHeaderAuthAction && arg2 == nil
+//@   safety[C15]
+//@ closure (*Service).wsHeaderAuth#2
+//@   requires s != nil && c != nil
+//@   ensures[C17] c.protocolVer == storedVer && meta == m && refRID == ref && err == e
+//@   ensures[C17] m != nil && m.Status != nil ==> 300 <= *m.Status && *m.Status < 600
+//@   safety[C15]
+
+// AuthResourceNoResult (header authentication): one auth request for the configured resource
+// method with the connection's own id and token; the answer is queued for the connection worker.
+//@ func (*wsConn).AuthResourceNoResult
+//@   requires predConnOK(c)
+//@   resolves[C07] cb exactly-once
+//@   assert[C05,C10] c.serv.cache.Auth#1: arg0 == c && arg3 == action && arg4 == c.token && arg5 == params && arg6
+//@   safety[C15]
+//@ closure (*wsConn).AuthResourceNoResult#1
+//@   requires c != nil
+//@   resolves[C07] cb exactly-once
+//@ closure (*wsConn).AuthResourceNoResult#2
+//@   resolves[C07] cb exactly-once
 // Dispose queues the cleanup on the connection worker, once; a connection that is already
 // disposing refuses it and is not waited for.
 //@ func (*wsConn).Dispose
@@ -553,6 +580,27 @@ var _ rpc.Resources
 //@   ensures[C11] c.disposing
 //@   assert[C17] httpError#2: arg1 == old(err) || (typeis(old(err), *reserr.Error) && old(err).(*reserr.Error).Code == "system.methodNotFound" &&
 //@       (r.Method == "PUT" || r.Method == "DELETE" || r.Method == "PATCH") && arg1 == reserr.ErrMethodNotAllowed)
+//@   assert[C17] httpStatusResponse#1: 300 <= arg2 && arg2 < 600 && httpwrites == old(httpwrites) && httpbodies == old(httpbodies)
+//@   ensures[C17] httpwrites <= old(httpwrites) + 1 && httpbodies <= old(httpbodies) + 1 && httpwrites + httpbodies > old(httpwrites) + old(httpbodies)
+//@   safety[C15]
+
+// The queued step: with header authentication configured exactly one auth request is made for
+// the configured resource method before the handler runs; without, the handler runs at once.
+//@ closure (*Service).temporaryConn#2
+//@   requires s != nil && w != nil && r != nil && predConnOK(c) && s.enc != nil
+//@   assert[C10,C14] c.AuthResourceNoResult#1: s.cfg.HeaderAuth != nil && arg0 == s.cfg.headerAuthRID && arg1 == s.cfg.headerAuthAction && arg2 == nil
+//@   assert[C17] cb#2: s.cfg.HeaderAuth == nil && arg0 == c
+//@   safety[C15]
+
+// The header-auth answer: a status within 300-599 ends the request here - one status response,
+// the connection disposed, the handler never run; any other answer runs the handler with the
+// auth meta kept for merging.
+//@ closure (*Service).temporaryConn#3
+//@   requires s != nil && w != nil && r != nil && predConnOK(c) && s.enc != nil
+//@   assumes predSubsOK(c) && c.serv.conns != nil && (err != nil ==> reserr.predErrOK(err))
+//@   assert[C17] httpStatusResponse#2: m != nil && m.Status != nil && 300 <= *m.Status && *m.Status < 600 && arg2 == *m.Status && httpwrites == old(httpwrites)
+//@   assert[C17] cb#1: (m == nil || m.Status == nil || !(300 <= *m.Status && *m.Status < 600)) && authMeta == m && arg0 == c && httpwrites == old(httpwrites)
+//@   ensures[C17] old(m != nil && m.Status != nil && 300 <= *m.Status && *m.Status < 600) ==> c.disposing && httpwrites == old(httpwrites) + 1
 //@   safety[C15]
 
 // --- HTTP rendering (C16) ---
@@ -785,6 +833,8 @@ var _ rpc.Resources
 //@   ensures[C11] old(c.disposing) ==> c.subs == old(c.subs) && callcount("RemoveConn") == old(callcount("RemoveConn")) && callcount("Dispose") == old(callcount("Dispose"))
 //@   ensures[C11] !old(c.disposing) ==> c.subs == nil && callcount("RemoveConn") == old(callcount("RemoveConn")) + 1
 //@   ensures[C11] !old(c.disposing) ==> (forall r string :: old(has(c.subs, r)) ==> old(c.subs[r]).state == stateDisposed && old(c.subs[r]).resourceSub == nil)
+//@   assigns c.disposing, c.subs, elemsof(map[string]*wsConn), Subscription.direct, Subscription.indirect, Subscription.indirectsent, Subscription.state, Subscription.readyCallbacks,
+//@       Subscription.eventQueue, Subscription.throttle, Subscription.resourceSub, Subscription.refs, elemsof(map[string]*Subscription), elemsof(map[string]rescache.Conn), pkgstate(rescache), cachecontainers()
 //@   safety[C15]
 //@   loop 1 invariant c.disposing && c.subs == nil && callcount("RemoveConn") == old(callcount("RemoveConn")) + 1 && callcount("Dispose") == old(callcount("Dispose")) + iters1
 //@   loop 1 invariant subs == old(c.subs) && (forall r string :: has(subs, r) == old(has(c.subs, r)) && subs[r] == old(c.subs[r]))
